@@ -71,51 +71,51 @@ theorem duplicate_rejected (cfg : Cfg) (hb : cfg.checkBefore = true) (tbl : Clas
   simp [processObject, hid, hb, h]
 
 /-- **load_ids_unique**: if a whole load succeeds, the objects constructed during it — one per
-object literal met, at ANY depth — carry pairwise distinct ids, none of which was in the initial
-registry; and the final registry is exactly the initial one followed by one entry
+object literal met, at ANY depth, whether its class registers it through `process_object` or
+registers itself inside its `from_json` — carry pairwise distinct ids, none of which was in the
+initial registry; and the final registry is exactly the initial one followed by one entry
 `id ↦ address` per constructed object, in construction order.  Equivalently: a second definition
 of an id anywhere in the nesting makes the load fail. -/
 theorem load_ids_unique (cfg : Cfg) (hc : cfg.checkAfter = true) (tbl : ClassTable) (fuel : Nat)
     (xs : List (Json ν)) (st0 st1 : St) (rs : List (List Addr))
     (hnd : (keys st0.reg).Nodup)
     (h : loadAll cfg tbl fuel xs st0 = .ok (rs, st1)) :
-    ∃ objs : List Obj,
-      st1.heap = st0.heap ++ objs ∧
-      st1.reg = st0.reg ++ entries st0.heap.length objs ∧
-      (objs.map (·.id)).Nodup ∧
-      (∀ o ∈ objs, o.id ∉ keys st0.reg) ∧
+    ∃ ids : List String,
+      heapIds st1 = heapIds st0 ++ ids ∧
+      st1.reg = st0.reg ++ entries st0.heap.length ids ∧
+      ids.Nodup ∧
+      (∀ i ∈ ids, i ∉ keys st0.reg) ∧
       (keys st1.reg).Nodup := by
   have hg := loadAll_good cfg hc tbl fuel xs st0 rs st1 h
-  rcases hg with ⟨⟨objs, hh, hr⟩, hn⟩
+  rcases hg with ⟨⟨ids, hh, hr⟩, hn⟩
   have hn1 := hn hnd
-  refine ⟨objs, hh, hr, ?_, ?_, hn1⟩
-  · have : (keys st1.reg) = keys st0.reg ++ objs.map (·.id) := by
-      rw [hr]; simp [keys, ← keys_entries st0.heap.length objs]
-    rw [NodupKeys, this, List.nodup_append] at hn1
+  have hk : (keys st1.reg) = keys st0.reg ++ ids := by
+    rw [hr]; unfold keys; rw [List.map_append]; congr 1; exact keys_entries _ _
+  refine ⟨ids, hh, hr, ?_, ?_, hn1⟩
+  · rw [NodupKeys, hk, List.nodup_append] at hn1
     exact hn1.2.1
-  · intro o ho hmem
-    have : (keys st1.reg) = keys st0.reg ++ objs.map (·.id) := by
-      rw [hr]; simp [keys, ← keys_entries st0.heap.length objs]
-    rw [NodupKeys, this, List.nodup_append] at hn1
-    exact hn1.2.2 _ hmem _ (List.mem_map_of_mem ho) rfl
+  · intro i hi hmem
+    rw [NodupKeys, hk, List.nodup_append] at hn1
+    exact hn1.2.2 _ hmem _ hi rfl
 
 /-- the same for one `process_object` call at any depth of the nesting -/
 theorem object_ids_unique (cfg : Cfg) (hc : cfg.checkAfter = true) (tbl : ClassTable) (fuel : Nat)
     (j : Json ν) (st0 st1 : St) (a : Addr) (hnd : (keys st0.reg).Nodup)
     (h : processObject cfg tbl fuel j st0 = .ok (a, st1)) :
-    ∃ objs : List Obj,
-      st1.heap = st0.heap ++ objs ∧ st1.reg = st0.reg ++ entries st0.heap.length objs ∧
+    ∃ ids : List String,
+      heapIds st1 = heapIds st0 ++ ids ∧ st1.reg = st0.reg ++ entries st0.heap.length ids ∧
       (keys st1.reg).Nodup := by
-  rcases processObject_good cfg hc tbl fuel j st0 a st1 h with ⟨⟨objs, hh, hr⟩, hn⟩
-  exact ⟨objs, hh, hr, hn hnd⟩
+  rcases processObject_good cfg hc tbl fuel j st0 a st1 h with ⟨⟨ids, hh, hr⟩, hn⟩
+  exact ⟨ids, hh, hr, hn hnd⟩
 
 /-- every object literal that is processed successfully is allocated at the returned address,
 carries the literal's id, is registered under that id, and the id was not registered before -/
-theorem literal_registered (cfg : Cfg) (hb : cfg.checkBefore = true) (tbl : ClassTable) (fuel : Nat)
+theorem literal_registered (cfg : Cfg) (hb : cfg.checkBefore = true) (hc : cfg.checkAfter = true)
+    (tbl : ClassTable) (fuel : Nat)
     (data : List (String × Json ν)) (st st' : St) (a : Addr)
     (h : processObject cfg tbl fuel (.obj data) st = .ok (a, st')) :
     ∃ id, lookup "id" data = some (.str id) ∧ regLookup id st.reg = none ∧
-      regLookup id st'.reg = some a ∧ (st'.heap[a]?).map (·.id) = some id := by
+      regLookup id st'.reg = some a ∧ (heapIds st')[a]? = some id := by
   cases fuel with
   | zero => simp [processObject] at h
   | succ fuel =>
@@ -129,33 +129,12 @@ theorem literal_registered (cfg : Cfg) (hb : cfg.checkBefore = true) (tbl : Clas
       split at h
       · cases h
       · rename_i hno
-        have hnone : regLookup id st.reg = none := by
-          cases hl : regLookup id st.reg with
-          | none => rfl
-          | some x => simp [hl] at hno
-        refine ⟨hnone, ?_⟩
+        refine ⟨isSome_false_none _ hno, ?_⟩
         split at h
         · cases h
         · split at h
           · cases h
-          · split at h
-            · split at h
-              · split at h <;> cases h
-              · split at h <;> cases h
-            · split at h
-              · cases h
-              · cases h
-                constructor
-                · -- registered at the new address
-                  clear hno
-                  rename_i st1 _ _
-                  generalize st1.reg = reg
-                  induction reg with
-                  | nil => simp [regSet, regLookup]
-                  | cons e rest ih =>
-                    rcases e with ⟨k', a'⟩
-                    by_cases hk : k' = id <;> simp [regSet, regLookup, hk, ih]
-                · simp
+          · exact constructObject_registers cfg tbl (processObject_good cfg hc tbl fuel) _ _ _ _ _ _ h
         · cases h
     · cases h
 
@@ -174,11 +153,11 @@ theorem registry_monotone (cfg : Cfg) (hc : cfg.checkAfter = true) (tbl : ClassT
     (xs : List (Json ν)) (st0 st1 : St) (rs : List (List Addr))
     (h : loadAll cfg tbl fuel xs st0 = .ok (rs, st1)) (k : String) (a : Addr)
     (hk : regLookup k st0.reg = some a) :
-    regLookup k st1.reg = some a ∧ (a < st0.heap.length → st1.heap[a]? = st0.heap[a]?) := by
-  rcases (loadAll_good cfg hc tbl fuel xs st0 rs st1 h).1 with ⟨objs, hh, hr⟩
+    regLookup k st1.reg = some a ∧ (a < st0.heap.length → (heapIds st1)[a]? = (heapIds st0)[a]?) := by
+  rcases (loadAll_good cfg hc tbl fuel xs st0 rs st1 h).1 with ⟨ids, hh, hr⟩
   constructor
   · rw [hr]; exact regLookup_append_left _ _ _ _ hk
-  · intro ha; rw [hh, List.getElem?_append_left ha]
+  · intro ha; rw [hh, List.getElem?_append_left (by simpa [heapIds_length] using ha)]
 
 /-- the same across one `process_object` call (any depth) -/
 theorem registry_monotone_object (cfg : Cfg) (hc : cfg.checkAfter = true) (tbl : ClassTable)
@@ -189,26 +168,35 @@ theorem registry_monotone_object (cfg : Cfg) (hc : cfg.checkAfter = true) (tbl :
   rcases (processObject_good cfg hc tbl fuel j st0 r st1 h).1 with ⟨objs, _, hr⟩
   rw [hr]; exact regLookup_append_left _ _ _ _ hk
 
-/-- **sharing**: two holders that resolved the same id — one at any point of a load, the other at
-any later point of it (after any further successful loading) — hold the same address, i.e. the
-same object instance; an update made through one is seen by the other. -/
+/-- **sharing**: two holders that resolved the same reference — a plain id OR the range form
+`stem{a:b}` — one at any point of a load, the other at any later point of it (after any further
+successful loading), hold the same address, i.e. the same object instance; an update made through
+one is seen by the other. -/
 theorem sharing (cfg : Cfg) (hc : cfg.checkAfter = true) (tbl : ClassTable) (fuel f1 f2 : Nat)
-    (s : String) (hs : s.toList.contains '{' = false)
+    (s : String)
     (xs : List (Json ν)) (st1 st2 st1' st2' : St) (rs : List (List Addr)) (a1 a2 : Addr)
     (h1 : processObject (ν := ν) cfg tbl (f1 + 1) (.str s) st1 = .ok (a1, st1'))
     (hmid : loadAll cfg tbl fuel xs st1' = .ok (rs, st2))
     (h2 : processObject (ν := ν) cfg tbl (f2 + 1) (.str s) st2 = .ok (a2, st2')) :
     a1 = a2 := by
-  rw [ref_resolves_to_registered cfg tbl f1 s hs] at h1
-  rw [ref_resolves_to_registered cfg tbl f2 s hs] at h2
-  cases hl1 : regLookup s st1.reg with
-  | none => simp [hl1] at h1
-  | some b1 =>
-    simp only [hl1, Except.ok.injEq, Prod.mk.injEq] at h1
+  simp only [processObject] at h1 h2
+  cases hr1 : resolveRef s st1.reg with
+  | error e => simp [hr1] at h1
+  | ok b1 =>
+    simp only [hr1, Except.ok.injEq, Prod.mk.injEq] at h1
     rcases h1 with ⟨rfl, rfl⟩
-    have := (registry_monotone cfg hc tbl fuel xs st1 st2 rs hmid s b1 hl1).1
-    simp [this] at h2
+    have hmono : ∀ k x, regLookup k st1.reg = some x → regLookup k st2.reg = some x :=
+      fun k x hk => (registry_monotone cfg hc tbl fuel xs st1 st2 rs hmid k x hk).1
+    have := resolveRef_mono s st1.reg st2.reg b1 hmono hr1
+    simp only [this, Except.ok.injEq, Prod.mk.injEq] at h2
     exact h2.1
+
+/-- the range form `stem{a:b}` resolves (as coded) to the object registered under the LAST id of the
+range, provided every id of the range is registered; it is stable under registry growth -/
+theorem range_ref_stable (s : String) (reg reg' : List (String × Addr)) (a : Addr)
+    (hm : ∀ k x, regLookup k reg = some x → regLookup k reg' = some x)
+    (h : resolveRef s reg = .ok a) : resolveRef s reg' = .ok a :=
+  resolveRef_mono s reg reg' a hm h
 
 /-- a holder of an id holds the object literal that defined it: resolving `id` after the literal
 was processed yields the address the literal was allocated at -/
@@ -219,7 +207,7 @@ theorem ref_is_the_literal (cfg : Cfg) (hb : cfg.checkBefore = true) (hc : cfg.c
     (h : processObject cfg tbl fuel (.obj data) st = .ok (a, st1))
     (hmid : loadAll cfg tbl fuel' xs st1 = .ok (rs, st2)) :
     processObject (ν := ν) cfg tbl (f2 + 1) (.str id) st2 = .ok (a, st2) := by
-  rcases literal_registered cfg hb tbl fuel data st st1 a h with ⟨id', hid', _, hreg, _⟩
+  rcases literal_registered cfg hb hc tbl fuel data st st1 a h with ⟨id', hid', _, hreg, _⟩
   rw [hid] at hid'
   cases hid'
   have := (registry_monotone cfg hc tbl fuel' xs st1 st2 rs hmid id a hreg).1
@@ -351,6 +339,38 @@ example : (match expandPlatesFuel (ν := Unit) 100 100
   decide +kernel
 
 example : parseRange "0:2" = some [0, 2] := by decide +kernel
+
+/-! ## a class whose `from_json` registers the object itself (FlexibleTimeTreeModel, F01b) -/
+
+/-- with the repaired loader a self-registering object loads, may be referred to by its own
+children (a cycle), and is registered once, at its own address -/
+theorem self_registering_loads :
+    okWith (loadAll (ν := Unit) Cfg.fixed classTable 3
+      [.obj [("id", .str "t"), ("type", .str "VSelf"),
+             ("pre", .obj [("id", .str "taxa"), ("type", .str "VLeaf")]),
+             ("inner", .obj [("id", .str "h"), ("type", .str "VOne"), ("x", .str "t")])]] ⟨[], []⟩)
+      (fun rs st => decide (rs = [[1]]) && decide (st.reg = [("taxa", 0), ("t", 1), ("h", 2)]) &&
+        decide (st.heap = [⟨"VLeaf", "taxa", []⟩,
+                           ⟨"VSelf", "t", [("pre", [0]), ("inner", [2]), ("rest", [])]⟩,
+                           ⟨"VOne", "h", [("x", [1])]⟩])) = true := by
+  decide +kernel
+
+/-- with F01 alone (`if id_ in dic` without `and dic[id_] is not obj`) the very same specification is
+rejected: the regression F01b repairs -/
+theorem f01only_rejects_self_registering :
+    failsWith (loadAll (ν := Unit) Cfg.f01only classTable 3
+      [.obj [("id", .str "t"), ("type", .str "VSelf"),
+             ("inner", .obj [("id", .str "h"), ("type", .str "VLeaf")])]] ⟨[], []⟩) (.duplicate "t") = true := by
+  decide +kernel
+
+/-- a child of a self-registering object that carries ITS id is still rejected (by the test before
+construction, since the id is already registered) -/
+theorem self_registering_child_duplicate_rejected :
+    failsWith (loadAll (ν := Unit) Cfg.fixed classTable 3
+      [.obj [("id", .str "t"), ("type", .str "VSelf"),
+             ("inner", .obj [("id", .str "t"), ("type", .str "VLeaf")])]] ⟨[], []⟩)
+      (.wrapped "VSelf" "t" (.duplicate "t")) = true := by
+  decide +kernel
 
 /-! ## comments -/
 section
